@@ -61,7 +61,7 @@ func runC15(c *core.Ctx) {
 		c.Probe("jumbo-frame-A")
 	}
 	first := true
-	payload := func() [][]byte {
+	payload := func(mtu int) [][]byte {
 		var frags [][]byte
 		for try := 0; try < 4 && len(frags) == 0; try++ {
 			media := gen.next(t, mtu)
@@ -75,8 +75,20 @@ func runC15(c *core.Ctx) {
 		return frags
 	}
 	for tr := 0; tr < ntrials; tr++ {
-		a := payload()
-		b := payload()
+		// the sender's MTU may change between frames (path MTU discovery, a renegotiation): what frame A
+		// left behind was sized for another MTU than frame B's fragments
+		mtuA, mtuB := mtu, mtu
+		if !jumboA && t.Chance(1, 5) {
+			big := []int{1200, 2100, 4200, 9000, 20000}[t.Intn(5)] + t.Intn(100)
+			if t.Chance(3, 4) {
+				mtuB = big
+			} else {
+				mtuA = big
+			}
+			c.Probe("mtu-changes-between-frames")
+		}
+		a := payload(mtuA)
+		b := payload(mtuB)
 		if len(a) == 0 || len(b) == 0 {
 			continue
 		}
